@@ -161,6 +161,11 @@ func (c *Ctx) typeEscapes(name string) bool {
 				// bound method value or escaping literal: does the function value leave this activation?
 				for _, u := range core.Users(x) {
 					if !c.localUse(u, x) {
+						// returned by a private step whose every caller merely hands the function value on to a local use
+						// (`d.cb(v, d.descend(w))`)
+						if ret, isRet := u.(*ssa.Return); isRet && c.returnedToLocalUses(ret) {
+							continue
+						}
 						esc = true
 					}
 				}
@@ -408,11 +413,42 @@ var callsBackOnly = map[string]bool{
 	"strings.TrimLeftFunc": true, "strings.TrimRightFunc": true, "(*sync.Once).Do": true,
 }
 
+// returnedToLocalUses: ret is the return of a private helper, and at every call site of that helper the returned
+// function value is used only in ways localUse accepts.
+func (c *Ctx) returnedToLocalUses(ret *ssa.Return) bool {
+	h := ret.Parent()
+	if h == nil || !c.P.PrivateHelper(h) || len(ret.Results) != 1 {
+		return false
+	}
+	sites := c.P.Callers(h)
+	if len(sites) == 0 {
+		return false
+	}
+	for _, s := range sites {
+		cv, ok := s.(*ssa.Call)
+		if !ok {
+			return false
+		}
+		for _, u := range core.Users(cv) {
+			if !c.localUse(u, cv) {
+				return false
+			}
+		}
+	}
+	return true
+}
+
 // spilledParam: v is a parameter, or a read of the variable a parameter was spilled to because a nested function
 // literal captures it (directly or from inside that literal).
 func (c *Ctx) spilledParam(v ssa.Value) *ssa.Parameter {
 	if prm, ok := v.(*ssa.Parameter); ok {
 		return prm
+	}
+	// a field of a small state struct that is set once, at construction, from a parameter (`w := &walker{cb: cb}`)
+	if cf := c.P.ConstructedField(v); cf != v {
+		if prm, ok := core.Strip(cf).(*ssa.Parameter); ok {
+			return prm
+		}
 	}
 	if d := c.P.DerefFree(v); d != nil {
 		prm, _ := d.(*ssa.Parameter)
